@@ -740,3 +740,31 @@ class _AssumeSubst(ast.NodeTransformer):
             if txt in self.env:
                 return self.env[txt]
         return super().generic_visit(node)
+
+
+def inline_value_helpers(expr, methods, selfname='self', depth=2):
+    """replace every call `self.h(args)` in `expr`, h a method in `methods` with exactly one returning path, by the
+    value that path returns (its locals expanded, its parameters replaced by the arguments): an extracted
+    'compute this value' helper is read as the expression it computes"""
+    if depth <= 0:
+        return expr
+
+    class T(ast.NodeTransformer):
+        def visit_Call(self, n):
+            self.generic_visit(n)
+            if isinstance(n.func, ast.Attribute) and isinstance(n.func.value, ast.Name) and n.func.value.id == selfname \
+                    and n.func.attr in methods and not any(k.arg is None for k in n.keywords):
+                h = methods[n.func.attr]
+                try:
+                    rcs = [c for c in return_cases(h) if c.kind == 'return']
+                except TooManyPaths:
+                    return n
+                if len(rcs) != 1 or rcs[0].conds:
+                    return n
+                params = [a.arg for a in h.args.args][1:]
+                ren = dict(zip(params, n.args))
+                ren.update((k.arg, k.value) for k in n.keywords if k.arg)
+                v = expand(rcs[0].sub, rcs[0].env, depth=6)
+                return inline_value_helpers(subst(v, ren), methods, selfname, depth - 1)
+            return n
+    return T().visit(clone(expr))
